@@ -293,11 +293,101 @@ fn c05_many_patterns(seed: u64, idx: usize, cache: &TableCache, rcache: &RefCach
     case_find_with(seed, idx, "C05", Some((spec, extra)), cache, rcache, out, st);
 }
 
+/// C01: several patterns of a mode share a token type (the reported type is the one of the first
+/// listed pattern among the longest matches; DESIGN F2 describes what the crate does when the
+/// shared type also occurs before that pattern).
+fn c01_shared_token_types(seed: u64, idx: usize, cache: &TableCache, rcache: &RefCache, out: &mut String, st: &mut Stats) {
+    let mut r = Rng::derive(seed ^ 0x0c01_5a7e, idx as u64);
+    let pc = ProgCfg { max_modes: 1, max_patterns: 4, lookahead: 0, nullable: true, transitions: false, big_tids: false };
+    let mut spec = cfggen::gen_program(&mut r, &pc);
+    const WORDS: [&str; 8] = ["and", "if", "ab", "a", "&&", "b", "do", "aa"];
+    const IDENT: [&str; 4] = ["[a-z]+", "[a-z&]+", "[a-b]+", "[a-z][a-z0-9]*"];
+    let w = r.pick(&WORDS).to_string();
+    let w2 = r.pick(&WORDS).to_string();
+    let id = r.pick(&IDENT).to_string();
+    let (t1, t2) = (1 + r.below(3), 5 + r.below(3));
+    let mk = |p: &str, t: usize| PatSpec { pattern: p.to_string(), tid: t, lookahead: None };
+    let mut pats: Vec<PatSpec> = match r.below(4) {
+        // keyword first: the first occurrence of its type is the keyword itself
+        0 => vec![mk(&w, t1), mk(&id, t2), mk(&w2, t1)],
+        // the shared type occurs again behind the identifier
+        1 => vec![mk(&w, t1), mk(&w2, t2), mk(&id, t2), mk("&&", t1)],
+        // the later keyword shares the type of an earlier pattern (F2 when it ties with the identifier)
+        2 => vec![mk(&w2, t1), mk(&id, t2), mk(&w, t1)],
+        _ => vec![mk(&id, t2), mk(&w, t1), mk(&w2, t1), mk("[0-9]+", t2)],
+    };
+    // the random patterns of the generated program around them, some sharing one of the two types
+    for (k, p) in spec[0].patterns.drain(..).enumerate() {
+        let tid = if r.chance(50) { *r.pick(&[t1, t2]) } else { 10 + k };
+        let at = r.below(pats.len() + 1);
+        pats.insert(at, PatSpec { pattern: p.pattern, tid, lookahead: None });
+    }
+    spec[0].patterns = pats;
+    let inputs = vec![
+        format!("{} {} {}{} x", w, w2, w, w2),
+        format!("a {} b && {}y 12 {}", w, w2, w),
+        format!("{}{}", w2, w),
+    ];
+    st.count("modes_with_a_shared_token_type", 1);
+    case_find_with(seed, idx, "C01", Some((spec, inputs)), cache, rcache, out, st);
+}
+
+/// C01: bracketed classes with an item that lies inside another item of the same class
+/// (`[a-z0-9_e]`, `[ -~a-f]`, `[a-zc-e]`), and inputs with characters of the enclosing range beyond
+/// the enclosed item.
+fn c01_nested_class_items(seed: u64, idx: usize, cache: &TableCache, rcache: &RefCache, out: &mut String, st: &mut Stats) {
+    let mut r = Rng::derive(seed ^ 0x0c01_9e57, idx as u64);
+    const OUTER: [(char, char); 6] = [('a', 'z'), ('A', 'Z'), ('0', '9'), (' ', '~'), ('α', 'ω'), ('a', 'm')];
+    let mut pats = Vec::new();
+    let mut text = String::new();
+    let n = 2 + r.below(3);
+    for k in 0..n {
+        let (lo, hi) = *r.pick(&OUTER);
+        let span = hi as u32 - lo as u32;
+        // enclosed item: starts after `lo`, ends before `hi`
+        let a = lo as u32 + 1 + r.below((span - 1) as usize) as u32;
+        let b = if r.chance(50) { a } else { a + r.below((hi as u32 - a) as usize) as u32 };
+        let item = |x: u32| -> String {
+            let c = char::from_u32(x).unwrap();
+            if c.is_alphanumeric() { c.to_string() } else { format!("\\x{{{:x}}}", x) }
+        };
+        let outer = format!("{}-{}", item(lo as u32), item(hi as u32));
+        let inner = if a == b { item(a) } else { format!("{}-{}", item(a), item(b)) };
+        let extra = *r.pick(&["", "_", "0-9", "\\."]);
+        let neg = if r.chance(15) { "^" } else { "" };
+        let body = match r.below(4) {
+            0 => format!("{}{}{}", outer, extra, inner),
+            1 => format!("{}{}{}", inner, extra, outer),
+            2 => format!("{}{}{}{}", outer, inner, extra, item(hi as u32)),
+            _ => format!("{}{}{}", extra, outer, inner),
+        };
+        let rep = *r.pick(&["+", "+", "*x", "{2,3}", ""]);
+        pats.push(PatSpec { pattern: format!("[{}{}]{}", neg, body, rep), tid: k, lookahead: None });
+        // characters of the enclosing range above, inside and below the enclosed item
+        for x in [b + 1, hi as u32, a, b, lo as u32, (b + hi as u32) / 2] {
+            if let Some(c) = char::from_u32(x.min(hi as u32)) {
+                text.push(c);
+            }
+        }
+        text.push(*r.pick(&[' ', '#', 'x', '\n']));
+    }
+    let spec = vec![ModeSpec { name: "INITIAL".to_string(), patterns: pats, transitions: vec![] }];
+    let cs: Vec<char> = text.chars().collect();
+    let mut shuffled = cs.clone();
+    r.shuffle(&mut shuffled);
+    let inputs = vec![text.clone(), shuffled.iter().collect::<String>(), cs.iter().rev().collect::<String>()];
+    st.count("classes_with_an_item_inside_another_item", n);
+    case_find_with(seed, idx, "C01", Some((spec, inputs)), cache, rcache, out, st);
+}
+
 fn case_find(seed: u64, idx: usize, suite: &str, cache: &TableCache, rcache: &RefCache, out: &mut String, st: &mut Stats) {
     case_find_with(seed, idx, suite, None, cache, rcache, out, st);
 }
 
 fn case_find_with(seed: u64, idx: usize, suite: &str, preset: Option<(Vec<ModeSpec>, Vec<String>)>, cache: &TableCache, rcache: &RefCache, out: &mut String, st: &mut Stats) {
+    if preset.is_none() && suite == "C01" && idx >= EXTRA_BASE {
+        return if idx % 2 == 0 { c01_shared_token_types(seed, idx, cache, rcache, out, st) } else { c01_nested_class_items(seed, idx, cache, rcache, out, st) };
+    }
     if preset.is_none() && suite == "C01" && idx % 40 == 7 {
         return c01_many_classes(seed, idx, out, st);
     }
@@ -307,6 +397,7 @@ fn case_find_with(seed: u64, idx: usize, suite: &str, preset: Option<(Vec<ModeSp
     if preset.is_none() && suite == "C05" && idx % 25 == 3 {
         return c05_many_patterns(seed, idx, cache, rcache, out, st);
     }
+    let preset_given = preset.is_some();
     let (preset_spec, preset_inputs) = match preset {
         Some((a, b)) => (Some(a), b),
         None => (None, vec![]),
@@ -322,7 +413,12 @@ fn case_find_with(seed: u64, idx: usize, suite: &str, preset: Option<(Vec<ModeSp
         None => cfggen::gen_program(&mut r, &pc),
     };
     // C01: a third of the programs goes through `add_patterns` (token type = pattern index)
-    let via_add_patterns = suite == "C01" && r.chance(33);
+    let preset_shares_tids = preset_given && spec.iter().any(|m| {
+        let mut t: Vec<usize> = m.patterns.iter().map(|p| p.tid).collect();
+        t.sort();
+        t.windows(2).any(|w| w[0] == w[1])
+    });
+    let via_add_patterns = suite == "C01" && r.chance(33) && !preset_shares_tids;
     if via_add_patterns && r.chance(25) {
         let at = r.below(spec[0].patterns.len() + 1);
         spec[0].patterns.insert(at, PatSpec { pattern: String::new(), tid: 0, lookahead: None });
@@ -774,6 +870,15 @@ fn case_iter(seed: u64, idx: usize, suite: &str, cache: &TableCache, out: &mut S
                     *st.ops.entry("with_positions_adapter_tokens".to_string()).or_default() += v.len();
                 }
             }
+        }
+        if matches!(suite, "C06" | "C07" | "C09" | "C10") {
+            // a history driven through the adapter's own trait impls (set_offset, position, set_mode,
+            // current_mode, mode_name of `WithPositions`)
+            let mut ra = Rng::derive(seed ^ 0xada9_7e12, (idx * 5 + input.len()) as u64);
+            out.push_str("new 2\n");
+            let n_ad = 6 + ra.below(14);
+            let done = real::adapter_history(&scanner, &input, 2, dump.modes.len(), &mut ra, n_ad, suite == "C09", out);
+            *st.ops.entry("operations_through_the_with_positions_adapter".to_string()).or_default() += done;
         }
         if st.samples.len() < 3 {
             st.samples.push(format!("{} input {:?}", desc, input));
@@ -3081,6 +3186,17 @@ impl log::Log for Discard {
     fn flush(&self) {}
 }
 
+/// First index of the extra cases of a suite (see `main`).
+const EXTRA_BASE: usize = 2_000_000;
+
+/// Number of extra cases of a suite for `n` ordinary ones.
+fn extra_cases(suite: &str, n: usize) -> usize {
+    match suite {
+        "C01" => n / 8,
+        _ => 0,
+    }
+}
+
 fn main() {
     // silence panic messages of caught panics
     std::panic::set_hook(Box::new(|_| {}));
@@ -3158,17 +3274,18 @@ fn main() {
             handles.push(s.spawn(move || {
                 let mut out = String::new();
                 let mut st = Stats::default();
-                let mut idx = t;
-                while idx < n {
+                // ordinary cases 0..n, then the extra cases of the suite (indices from EXTRA_BASE on:
+                // case kinds added later live there, so that the ordinary indices keep their meaning)
+                let indices: Vec<usize> = match &only {
+                    Some(o) => o.clone(),
+                    None => (0..n).chain((0..extra_cases(&suite, n)).map(|j| EXTRA_BASE + j)).collect(),
+                };
+                let mut pos = t;
+                while pos < indices.len() {
+                    let idx = indices[pos];
+                    pos += threads;
                     if suite == "C13" && idx == 0 {
-                        idx += threads;
                         continue;
-                    }
-                    if let Some(o) = &only {
-                        if !o.contains(&idx) {
-                            idx += threads;
-                            continue;
-                        }
                     }
                     match suite.as_str() {
                         "C04" | "C05" if idx % 3 == 2 => case_iter(seed, idx, &suite, &cache, &mut out, &mut st),
@@ -3183,7 +3300,6 @@ fn main() {
                         "C18" => case_c18(seed, idx, &cache, &mut out, &mut st),
                         _ => case_iter(seed, idx, &suite, &cache, &mut out, &mut st),
                     }
-                    idx += threads;
                 }
                 (out, st)
             }));
